@@ -107,6 +107,22 @@ def body_cli(case, rec):
         src = d / "in" / "asm.fa"
         src.parent.mkdir()
         src.write_bytes(data)
+        if case.get("stale_cache"):
+            # index files left by an earlier version of the file (same names, other offsets and residues), dated
+            # exactly as the FASTA or a second older: they describe another file and must not be used
+            import os
+
+            from tola.fasta.index import FastaIndex
+
+            older = {"records": [[r[0], "earlier version", r[2][::-1] + "ACGTNN", 61, r[4]] for r in case["fasta"]["records"]],
+                     "final_newline": True}
+            src.write_bytes(gen.fasta_bytes(older))
+            FastaIndex(src).auto_load()
+            src.write_bytes(data)
+            mt = src.stat().st_mtime_ns
+            back = 0 if case["stale_cache"] == "equal" else 10**9
+            for sfx in (".fai", ".agp"):
+                os.utime(src.with_name(src.name + sfx), ns=(mt - back, mt - back))
         mp = d / "map.agp"
         mp.write_text(remap.map_agp_text(case))
         out = d / "out" / "x.1.fa"
@@ -142,7 +158,7 @@ def body_cli(case, rec):
                     raise Violation(f"{f.name}: empty or over-long line")
             n_records += len(objects)
             edited |= any(r[0] == "F" and (r[4] == -1 or len(r) > 5 and "Cut" in r[5]) for _n, rows in objects for r in rows)
-        rec.note(case, n_records > 1 and edited, {"edited"} if edited else set())
+        rec.note(case, n_records > 1 and edited, ({"edited"} if edited else set()) | ({"stale_cache_" + case["stale_cache"]} if case.get("stale_cache") else set()))
     finally:
         remap.rmtree(d)
 
@@ -218,8 +234,12 @@ def cli_cases(draw):
     t = draw(gen.texel(small=True))
     inp = fasta_input_plain(f)
     m = draw(gen.model_map(inp, t))
-    return {"fasta": f, "t": gen.texel_str(t), "input": inp, "map": m,
+    case = {"fasta": f, "t": gen.texel_str(t), "input": inp, "map": m,
             "fasta_buffer": draw(st.sampled_from([None, 1, 7, 50, 199, 200]))}
+    stale = draw(st.sampled_from([None, None, None, "equal", "older"]))
+    if stale:
+        case["stale_cache"] = stale
+    return case
 
 
 SUBS = [
